@@ -364,7 +364,7 @@ pub fn main() {
         let r = engine::catch(|| exec(&case, &mut acc)).unwrap_or_else(|c| Err(format!("panic: {}", c.msg)));
         engine::finish_replay(PROP, p, r);
     }
-    let g = grid(args.scale(8, 10) as u32, args.seed);
+    let g = grid(args.scale(20, 5) as u32, args.seed);
     let acc = engine::parallel(&args, PROP, |w, workers, acc| {
         for (i, c) in g.iter().enumerate() {
             if i % workers == w {
